@@ -29,7 +29,7 @@ TRUSTED = ["xml.etree.ElementTree serializer (modelled; validated char-for-char)
 
 SPECIAL = ["\x00", "\x01", "\x08", "\x0b", "\x0c", "\x1f", "\x7f", "\x85", "\ud800", "\udfff", "￾", "￿", "�",
            "<", ">", "&", "\"", "'", "]]>", "\r", "\n", "\t", "\r\n", "é", "漢", "\U0001f600", "\U0010ffff", "&amp;", "&#0;",
-           "<![CDATA[", "-->", " ", "a" * 50]
+           "<![CDATA[", "-->", " ", "a" * 50, ".", "ratio=1.5", "host='a.org'", "1.2.3"]
 
 
 def gen_text(rng, long=False):
